@@ -1,5 +1,5 @@
 (* C02 -- data channel traffic always drains: the no-deadlock invariants of the sender.
-   Property theorems only; proofs in Proof/SctpTxP.v and Proof/SctpTxLiveP.v.
+   Property theorems only; proofs in Proof/SctpTxP.v, Proof/SctpTxLiveP.v and Proof/SctpLoopP.v.
 
    The sender model (Model/SctpTx.v) takes ANY list of inputs: messages handed to
    _send (fragments with non-negative sizes), SACK chunks with ANY cumulative TSN and
@@ -8,7 +8,7 @@
    expiries at any moment it is armed, and the deferred _transmit task at any moment.
    Lost DATA packets need no input of their own: the chunk simply stays outstanding. *)
 From Coq Require Import ZArith List Bool.
-From AV Require Proof.SctpDupP.
+From AV Require Proof.SctpDupP Model.SctpRecv Proof.SctpLoopP.
 From AV Require Import Gen.SctpConst Model.SctpTx Proof.SctpTxP Proof.SctpTxLiveP.
 Import ListNotations.
 Local Open Scope Z_scope.
@@ -80,10 +80,27 @@ Theorem C02_tsn_order : forall base N t rw ins,
 Proof. intros base N t rw ins Hb HN Ht Hw. exact (run_ord base N Hb HN ins _ (ord_init base N t rw Ht) Hw). Qed.
 Print Assumptions C02_tsn_order.
 
-(* PARTIAL.  Proved: no deadlock state (1-3) and, from every reachable state, drainage by the
-   fault-free continuation with an ideal peer (4).  NOT proved: that the REAL peer plus a
-   fault-free network produce such a continuation within bounded time -- that composes two
-   endpoints, the receiver's SACK generation and the timers; it is observed by the
+(* 6. The acknowledgement assumed in theorem 4 is the one the RECEIVER MODEL sends.  Let the
+   chunks outstanding at the sender (any reachable sender state, order invariant of theorem 5)
+   arrive in order, none lost, at a receiver (Model/SctpRecv.v, the model tied to
+   _receive_data_chunk / _send_sack) that has received everything before them: its last SACK
+   carries the highest TSN sent and no gap blocks -- exactly the ISack input of `drain`. *)
+Module R := AV.Model.SctpRecv.
+Theorem C02_ideal_sack_is_the_receivers : forall base N (stx : tx) (cs : list R.chunk) (r : R.rstate),
+  SctpDupP.r32 base -> 0 <= N < 2147483648 -> ord base N stx -> sentq stx <> [] ->
+  map R.tsn cs = tsns (sentq stx) -> R.last_rx r = floor stx -> R.misordered r = [] ->
+  Forall (fun o => o <> R.OutAssert) (snd (R.rrun r (map R.EvData cs))) ->
+  exists ms rw dups,
+    List.last (snd (R.rrun r (map R.EvData cs))) R.OutAssert =
+    R.OutOk ms (Some (R.mkSack (highest_assigned stx) rw [] dups)).
+Proof. exact AV.Proof.SctpLoopP.ideal_sack_is_the_receivers. Qed.
+Print Assumptions C02_ideal_sack_is_the_receivers.
+
+(* PARTIAL.  Proved: no deadlock state (1-3); from every reachable state, drainage by the
+   fault-free continuation with an ideal peer (4); the ideal peer's answer is the receiver
+   model's answer under in-order loss-free delivery (6).  NOT proved: the full closed loop of two
+   endpoints within bounded time -- SACK delay, retransmission timers, reordering in the
+   fault-free suffix, both directions at once; it is observed by the
    two-endpoint simulator (fault prefix, then fault-free delivery and timer firings until
    quiescence) on every run.  Real time (RTO values) is outside every theorem. *)
 
